@@ -108,7 +108,7 @@ CHECKS = {
             "engine": "tensor-history",
             "design_ref": "DESIGN.md section 3, engine A",
             "level_text": "Seeded search over histories: each run drives a dense tensor and a sparse tensor in lock-step through 4-30 reads/writes in every documented key form (growth, order growth, zero writes, mixed batches, unsorted sparse storage, malformed requests as faults) and compares the full state of both with a dict-of-cells reference model after every step. A clean batch is evidence over the sampled histories, not a proof; violations are ddmin-minimised and replayed in fresh interpreters before being reported.",
-            "level_note": "Trusted: the reference model (sim/engine_a.py Model), numpy. Narrowings: no duplicate positions in one batch, no length-1 index lists, float64 or int64 values, slice strides and negative slice bounds only where nothing grows; index lists as python lists or numpy arrays; a tensor may be assigned into a region of itself. 6% of the runs use tensors of several hundred elements with requests naming 200-1200 positions; 3% are sparse-only histories on modes of 2**24..2**40 (no dense twin; key forms for which the library materialises the extent of a mode are left out there). Two recorded known findings (dense multi-index-list regions) are driven through the subscript-array form on the dense side. In half of the runs the integers of a key arrive as numpy integer types of every width and signedness (scalars, index and subscript arrays, also F-ordered, transposed or strided views), and scalar right-hand sides partly as python ints.",
+            "level_note": "Trusted: the reference model (sim/engine_a.py Model), numpy. Narrowings: no duplicate positions in one batch, no length-1 index lists, float64 or int64 values, slice strides and negative slice bounds only where nothing grows; index lists as python lists or numpy arrays; a tensor may be assigned into a region of itself. 6% of the runs use tensors of several hundred elements with requests naming 200-1200 positions; 3% are sparse-only histories on modes of 2**24..2**40 (no dense twin; key forms for which the library materialises the extent of a mode are left out there). Two recorded known findings (dense multi-index-list regions) are driven through the subscript-array form on the dense side. In half of the runs the integers of a key arrive as numpy integer types of every width and signedness (scalars, index and subscript arrays, also F-ordered, transposed or strided views), and scalar right-hand sides partly as python ints. Malformed requests (wrong value counts, right-hand sides of another shape also where the key would grow the receiver, linear reads and writes at and beyond the element count) are interleaved at a low rate; the history continues after them and the state check judges what they did.",
             "technique": "deterministic simulation: seeded history search against an executable reference model (refinement), ddmin + JSON replay",
         },
         "level": "exploration",
@@ -137,7 +137,7 @@ CHECKS = {
             "engine": "solver-world/cp_apr",
             "design_ref": "DESIGN.md section 3, engine C, C11",
             "level_text": "For every sampled problem the simulated clock fires the CP-APR deadline at every outer-iteration boundary in turn (complete enumeration of deadline positions per problem), plus sampled clock anomalies; the whole C11 contract (rank/shape, non-negativity, reported objective == independently recomputed Poisson log-likelihood, one non-negative KKT entry per iteration performed -- counted independently through the clock seam --, iteration limit, likelihood >= start, data and guess untouched) is checked at every return, and a cut by time must equal the cut by iteration count up to rounding (1e-9 relative; see DESIGN.md section 11, last entry). Problems themselves are sampled.",
-            "level_note": "Trusted: harness' own Kruskal-to-dense and log-likelihood (20 lines), SimClock. Order >= 2 only. PQNR's documented 'first iterate is bad' abort ends the run and is counted.",
+            "level_note": "Trusted: harness' own Kruskal-to-dense and log-likelihood (20 lines), SimClock. Order >= 2 only. PQNR's documented 'first iterate is bad' abort ends the run and is counted. 8% of the problems are planted next to a maximiser whose factors hold exact zeros (some with a component switched off by a zero weight); 15% of the explicit guesses store one factor at another scale with the weights compensating. One recorded known finding (MU with kappa >= 0.1) is tolerated by name only when the solver reports that its offset was applied.",
             "technique": "deterministic simulation: scripted clock seam, enumeration of deadline positions, differential oracle time-cut vs count-cut",
         },
         "level": "fault_enumeration",
@@ -169,7 +169,7 @@ CHECKS = {
             "engine": "solver-world/gcp",
             "design_ref": "DESIGN.md section 3, engine C, C13",
             "level_text": "Seeded search over (a) sampler calls on dense / sparse / nearly-full / nearly-empty data with requests from 0 to beyond the supply, judged against the data by an independent lookup (subscripts inside, values equal data, true zeros, one weight per sample, per-stratum weight totals); (b) histories of 2-5 solves on ONE SGD/Adam/Adagrad/LBFGSB object, some aborted by an injected collaborator fault (sampler, loss callable or user callback raising at its k-th call), each returned solve checked for bounds, best-of-trace, trace length (epochs counted independently through the sampler proxy) and compared (up to rounding, 1e-9 relative) with the same solve on a freshly constructed optimizer under the same random stream and a different clock.",
-            "level_note": "Trusted: the loss callables of pyttb.gcp.handles (used by the harness to recompute estimates), harness' own model evaluation, numpy RNG seeding. Semi-stratified zero samples are by definition not rejection-sampled, so the true-zero clause is not applied to them. Runs whose estimates become NaN are counted and excluded from the ordering clauses. 30% of the solves are preceded by the construction (half of the time also the use) of another, differently configured optimizer object of the same class. The zero sampler is also called directly, with and without replacement.",
+            "level_note": "Trusted: the loss callables of pyttb.gcp.handles (used by the harness to recompute estimates), harness' own model evaluation, numpy RNG seeding. Semi-stratified zero samples are by definition not rejection-sampled, so the true-zero clause is not applied to them. Runs whose estimates become NaN are counted and excluded from the ordering clauses. 30% of the solves are preceded by the construction (half of the time also the use) of another, differently configured optimizer object of the same class. The zero sampler is also called directly, with and without replacement. Sample steps also use count data in int64 storage and sampler objects configured on a tensor of another size. A NaN result from a starting guess with a finite estimate is a violation.",
             "technique": "deterministic simulation: seeded stream + scripted clock + faulting sampler/loss proxies; history of solves on one object vs. fresh-object reference (differential)",
         },
         "level": "exploration",
@@ -263,8 +263,8 @@ CHECKS = {
         "manifest": {
             "engine": "object-heap",
             "design_ref": "DESIGN.md section 3, engine B",
-            "level_text": "Seeded search over histories on a heap of up to 14 live objects of all seven classes plus loose arrays: each step applies one of 207 catalogued public operations (every class, constructors with both copy flags, module functions, the five algorithm entry points) to operands drawn from the heap, or injects a perturbation (an in-place write into one buffer of one live object at that instant). After every step: operands bit-identical to their snapshots, no result buffer shares memory (np.shares_memory, exact) with any live object outside its documented no-copy group, a perturbation is invisible in every object outside the perturbed alias group (so transitive chains are reached), in-place operations change their receiver's group only.",
-            "level_note": "Trusted: the snapshot/alias-group model (sim/engine_b.py Heap), np.shares_memory. Permitted sharing: copy=False constructors, to_tenmat/to_tensor(copy=False), identity of in-place operations, the caller's initial guess returned by an algorithm. Recorded known findings are tolerated by name only for the operation they were found on.",
+            "level_text": "Seeded search over histories on a heap of up to 14 live objects of all seven classes plus loose arrays: each step applies one of 231 catalogued public operations (every class, constructors with both copy flags, module functions, the five algorithm entry points) to operands drawn from the heap, or injects a perturbation (an in-place write into one buffer of one live object at that instant). After every step: operands bit-identical to their snapshots, no result buffer shares memory (np.shares_memory, exact) with any live object outside its documented no-copy group, a perturbation is invisible in every object outside the perturbed alias group (so transitive chains are reached), in-place operations change their receiver's group only.",
+            "level_note": "Trusted: the snapshot/alias-group model (sim/engine_b.py Heap), np.shares_memory. Permitted sharing: copy=False constructors, to_tenmat/to_tensor(copy=False), identity of in-place operations, the caller's initial guess returned by an algorithm. Recorded known findings are tolerated by name only for the operation they were found on. Arrays of the information dictionaries returned by the algorithms are judged for sharing with live objects (not kept); mode orders and ranks are partly handed over as caller-owned arrays.",
             "technique": "deterministic simulation: object-heap histories with perturbation (in-place write) injection against a snapshot + alias-group reference model",
         },
         "level": "exploration",
@@ -284,7 +284,7 @@ CHECKS = {
         "manifest": {
             "engine": "object-heap",
             "design_ref": "DESIGN.md section 3, engines A and B (C19 facet), Appendix A",
-            "level_text": "Fault kind 'malformed request' injected into the histories of engine A (indexing on a dense+sparse pair: value count != subscript count, too few subscript columns, linear write beyond the extent, region right-hand side of the wrong shape, negative entries in a sparse subscript array) and engine B (69 recipes across all classes, module functions and algorithm entry points: shape mismatches between heap operands of different shapes, wrong-length vectors, wrong-size matrices, factor lists of the wrong length / column / row count, mode arguments out of range / negative / repeated / dims together with exclude_dims, non-permutations, element-count-changing reshapes, inconsistent constructor components, bad algorithm options). Oracle: the call raises AND every live object on the heap is bit-identical to its snapshot afterwards; the history then continues, so a partial mutation that is invisible at once is caught by later steps. Each recipe re-establishes from the actual operands that the request really violates the precondition.",
+            "level_text": "Fault kind 'malformed request' injected into the histories of engine A (indexing on a dense+sparse pair: value count != subscript count, too few subscript columns, linear write beyond the extent, region right-hand side of the wrong shape, negative entries in a sparse subscript array) and engine B (106 recipes across all classes, module functions and algorithm entry points: shape mismatches between heap operands of different shapes, wrong-length vectors, wrong-size matrices, factor lists of the wrong length / column / row count, mode arguments out of range / negative / repeated / dims together with exclude_dims, non-permutations, element-count-changing reshapes, inconsistent constructor components, bad algorithm options). Oracle: the call raises AND every live object on the heap is bit-identical to its snapshot afterwards; the history then continues, so a partial mutation that is invisible at once is caught by later steps. Each recipe re-establishes from the actual operands that the request really violates the precondition.",
             "level_note": "Only violations that C19's statement names are injected. Trusted: the recipes' malformedness predicates (sim/catalog_b_bad.py), the snapshot model. The plain sptensor constructor documents 'no validation' apart from subscripts fitting the shape, so only that is a recipe.",
             "technique": "deterministic simulation: malformed-request fault injection into seeded object histories; oracle = rejected and all live state unchanged",
         },
